@@ -17,6 +17,7 @@
 #
 import logging
 from multiprocessing import Process, Queue, Pipe
+from queue import Empty
 from multiprocessing.connection import Connection
 from typing import Any, Dict, Iterable, List, Optional, Tuple, Union, cast
 
@@ -26,6 +27,7 @@ from pysmt.decorators import clear_pending_pop
 from pysmt.logics import convert_logic_from_string, Logic
 from pysmt.fnode import FNode
 from pysmt.utils import assert_not_none
+from pysmt.exceptions import PysmtException
 
 
 LOGGER = logging.getLogger(__name__)
@@ -156,8 +158,22 @@ class Portfolio(IncrementalTrackingSolver):
             _p.start()
             _debug("Started instance of %s", sname)
 
+        last_failure: Optional[BaseException] = None
         while True:
-            (sname, res) = signaling_queue.get(block=True)
+            try:
+                (sname, res) = signaling_queue.get(block=True, timeout=0.1)
+            except Empty:
+                if any(p.is_alive() for p in processes):
+                    continue
+                # No solver is running anymore: unless an answer is
+                # still in the queue, all of them failed
+                try:
+                    (sname, res) = signaling_queue.get(block=True, timeout=0.1)
+                except Empty:
+                    if last_failure is not None:
+                        raise last_failure
+                    raise PysmtException("All the solvers of the portfolio "
+                                         "terminated without an answer")
             if isinstance(res, BaseException):
                 if cast(PortfolioOptions, self.options).exit_on_exception:
                     # Close all solvers and raise exception
@@ -165,6 +181,7 @@ class Portfolio(IncrementalTrackingSolver):
                         p.terminate()
                     raise res
                 else:
+                    last_failure = res
                     continue
             else:
                 assert type(res) is bool, type(res)
